@@ -493,8 +493,25 @@ def sx_float(x=0.0):
     if isinstance(x, TStr):
         if x.isdecimal():
             return x.to_int()      # integer-valued float modelled exactly as an integer
-        raise Unsupported("float() of non-integer symbolic text")
+        its = x.strip().items
+        neg = False
+        if its and isinstance(its[0], str) and its[0] in "+-":
+            neg, its = its[0] == "-", its[1:]
+        dots = [i for i, c in enumerate(its) if isinstance(c, str) and c == "."]
+        digs = [c for c in its if not (isinstance(c, str) and c == ".")]
+        if len(dots) == 1 and digs and all(isinstance(c, SChar) or (isinstance(c, str) and c in "0123456789") for c in digs):
+            # <digits>.<digits> (ASCII): the nearest double to the written decimal, as an IEEE term
+            if any(isinstance(c, SChar) and c.base != 48 for c in digs):
+                raise Unsupported("float() of non-ASCII symbolic digits")
+            acc = z3.IntVal(0)
+            for c in digs:
+                acc = acc * 10 + (c.z if isinstance(c, SChar) else int(c))
+            f = core.SFloat.from_decimal(acc, len(its) - 1 - dots[0], len(digs))
+            return -f if neg else f
+        raise Unsupported("float() of non-numeric symbolic text")
     if isinstance(x, SInt):
+        return x
+    if isinstance(x, core.SFloat):
         return x
     return float(x)
 
@@ -586,6 +603,8 @@ def sx_int(x=0, *a):
         return x.to_int()
     if isinstance(x, SInt):
         return x
+    if isinstance(x, core.SFloat):
+        return x.to_int()
     return _builtin_int(x, *a)
 
 
@@ -595,6 +614,8 @@ def sx_isinstance(o, cls):
             return True
     if (cls is int or cls is float or (_builtin_isinstance(cls, tuple) and (int in cls or float in cls))) \
             and _builtin_isinstance(o, SInt):
+        return True
+    if (cls is float or (_builtin_isinstance(cls, tuple) and float in cls)) and _builtin_isinstance(o, core.SFloat):
         return True
     # module-level names such as `datetime`/`timedelta` are rebound to the proxies; real instances (table constants such
     # as the tz offsets) must still satisfy the checks they satisfied before the rebinding
